@@ -260,7 +260,7 @@ class Sim:
         if f6:
             # torn / short write of the file being added: the tail is missing
             cut = max(1, min(len(data) - 2, int(len(data) * f6['cut'])))
-            with open(path, 'wb') as fh:
+            with open(self._resource_file(path), 'wb') as fh:
                 fh.write(data[:cut])
         self._knobs(op)
         W = self.W
